@@ -42,9 +42,10 @@ def sid_shapes(tier: str) -> t.List[str]:
             else:
                 subs = [(21 if i == 0 else (i * 2654435761) % 2**32) for i in range(n)]
             out.append("S-1-5-" + "-".join(map(str, subs)))
+    big = ["S-1-4294967296-7", "S-1-281474976710655-1-4294967295", "S-9-0-0"]  # identifier authority >= 2^32 / maximal, another revision
     if tier == "quick":
-        return [out[0], out[3 * 4 + 2], out[3 * 13 + 1], out[3 * 14 + 2]]
-    return out
+        return [out[0], out[3 * 4 + 2], out[3 * 13 + 1], out[3 * 14 + 2]] + big[:2]
+    return out + big
 
 
 def _ctx(u, p, **kw):
